@@ -73,6 +73,14 @@ class Task:
                               {'message': 'task produced zero obligations (vacuity guard)'})]
             return out
         except Exception as e:  # machinery crash: never a violation
+            tb = ''.join(traceback.format_exception(e))
+            if type(e).__name__ == 'AsmSyntaxError' and 'compile_hid' in tb:
+                # ... except when what crashed is reading the text the real compiler emitted for a whole program: that text is then not
+                # well-formed by the stated assembler grammar (C10 "complete assembly the assembler accepts", C13 "always well-formed")
+                return [Result(f'{self.label or self.func}/emitted-assembly-well-formed', FAILED, 'reader', time.time() - t0,
+                               tuple(sorted(set(self.props) | {'C10', 'C13'})),
+                               {'message': f'the assembly emitted by the real compiler does not parse: {e}', 'formula': 'every emitted line parses with the stated assembler grammar',
+                                'replay': {'reproduced': True, 'how': 'hidv.sphinx.reader on the output of the real pipeline', 'observed': str(e)[:400]}})]
             return [Result(f'{self.label or self.func}/crash', ERROR, 'driver', time.time() - t0, tuple(self.props),
                            {'message': ''.join(traceback.format_exception(e))[-4000:]})]
 
